@@ -998,7 +998,11 @@ class Interp:
             st.hset('DOM', DOM_SORT, r, z3.K(z3.IntSort(), z3.BoolVal(False)))
             return VRef(r, '{}')
         r = st.new_ref()
-        rec = VRef(r, None)
+        # the record class of a literal: the unique declared record shape that has all its keys (None: decided at the store)
+        lit_keys = [k.value for k in node.keys if isinstance(k, ast.Constant) and isinstance(k.value, str)]
+        cands = sorted(set(c for (c, kk) in self.schema.keys if c is not None
+                           and all((c, k2) in self.schema.keys for k2 in lit_keys)))
+        rec = VRef(r, cands[0] if (len(cands) == 1 and len(lit_keys) == len(node.keys)) else None)
         present = set()
         for k, vn in zip(node.keys, node.values):
             kv = self.eval(k)
@@ -1725,7 +1729,33 @@ class Interp:
                 continue
             raise Unsupported('del target (line %s)' % node.lineno)
 
+    @staticmethod
+    def _only_dropped(stmts):
+        """the block consists of statements the extraction drops (print / logger calls) only"""
+        for s_ in stmts:
+            if not (isinstance(s_, ast.Expr) and isinstance(s_.value, ast.Call)):
+                return False
+            f_ = s_.value.func
+            if isinstance(f_, ast.Name) and f_.id == 'print':
+                continue
+            if isinstance(f_, ast.Attribute) and isinstance(f_.value, ast.Name) and f_.value.id == 'logger':
+                continue
+            return False
+        return bool(stmts)
+
+    @staticmethod
+    def _simple_test(e):
+        """a condition over local names and constants only: evaluating it cannot raise or have an effect"""
+        for n_ in ast.walk(e):
+            if not isinstance(n_, (ast.BoolOp, ast.And, ast.Or, ast.Compare, ast.Name, ast.Constant, ast.Load, ast.UnaryOp, ast.Not,
+                                   ast.Eq, ast.NotEq, ast.Lt, ast.LtE, ast.Gt, ast.GtE)):
+                return False
+        return True
+
     def x_If(self, node):
+        if not node.orelse and self._only_dropped(node.body) and self._simple_test(node.test):
+            # diagnostics only (dropped by the extraction): no need to split the path on the condition
+            return
         c = self.truth(self.eval(node.test))
         if self.st.branch_bool(c, 'if'):
             self.exec_block(node.body)
